@@ -934,6 +934,10 @@ impl<'s> Sim<'s> {
                 self.viol("C14", "live-rate-below-floor", format!("side {} allowed send rate {} below s/64 after step at t={} ms", i, rate, now / MS));
             }
         }
+        if self.verbose && std::env::var("VERIF_TRACE_CREDIT").is_ok() {
+            let hc = self.sides[i].hc.as_ref().unwrap();
+            eprintln!("[{:>9.3} ms] side {} after step(): credit {} rate {} rtt {:?}", self.now_ns as f64 / 1e6, i, hc.verif_flush_alloc(), hc.verif_send_rate(), hc.rtt_s());
+        }
         self.observe_sender(i, "step()");
         // 4. receive
         let mut pkts: Vec<Box<[u8]>> = Vec::new();
@@ -1180,90 +1184,99 @@ impl<'s> Sim<'s> {
     /// C13: bytes in any interval <= B*(dt + R) + 1472.
     fn check_rate(&mut self, i: usize) {
         let b = self.sides[i].rate_limit as f64;
-        if b < 1472.0 {
-            return;
-        }
         let tr = std::mem::take(&mut self.sides[i].tx_trace);
-        let n = tr.len();
-        if n == 0 {
-            return;
-        }
-        self.out.c.add("rate_events", n as i128);
-        let mut worst_strict = 0.0f64;
-        let mut worst: Option<(usize, usize, f64, f64, f64)> = None;
-        let mut worst_grid = 0.0f64;
-        // exact check over all intervals ending at j, looking back at most LOOKBACK events, plus a
-        // running-minimum form with the running maximum RTT for longer intervals
-        const LOOKBACK: usize = 600;
-        let mut cum = vec![0f64; n + 1];
-        for k in 0..n {
-            cum[k + 1] = cum[k] + tr[k].len as f64;
-        }
-        for j in 0..n {
-            let mut rmax = 0.0f64;
-            let lo = j.saturating_sub(LOOKBACK);
-            let mut k = j + 1;
-            while k > lo {
-                k -= 1;
-                rmax = rmax.max(tr[k].rtt_s);
-                // only interval starts that begin a new instant matter (closed interval)
-                if k > 0 && tr[k - 1].t_ns == tr[k].t_ns && k > lo {
-                    continue;
-                }
-                let bytes = cum[j + 1] - cum[k];
-                let dt = (tr[j].t_ns - tr[k].t_ns) as f64 / 1e9;
-                let allowed = b * (dt + rmax) + 1472.0;
-                let excess = bytes - allowed;
-                if excess > worst_strict {
-                    worst_strict = excess;
-                    let d = tr[k].step_dt_ns as f64 / 1e9;
-                    let grid_allowed = b * (dt + rmax + d) + 1472.0;
-                    worst = Some((k, j, bytes, allowed, d));
-                    worst_grid = worst_grid.max(bytes - grid_allowed);
-                }
-            }
-        }
-        // long intervals: g(j) - min g^-(i) <= B*Rmax_so_far + 1472
-        let mut min_g = f64::MAX;
+        check_rate_trace(i, b, &tr, &mut self.out.c, &mut self.out.violations);
+    }
+}
+
+/// C13 oracle over a transmission trace: bytes in any interval <= B*(dt + R) + 1472.
+pub fn check_rate_trace(i: usize, b: f64, tr: &[TxEvent], c: &mut Counters, violations: &mut Vec<Violation>) {
+    if b < 1472.0 {
+        return;
+    }
+    let n = tr.len();
+    if n == 0 {
+        return;
+    }
+    c.add("rate_events", n as i128);
+    let mut worst_strict = 0.0f64;
+    let mut worst: Option<(usize, usize, f64, f64, f64)> = None;
+    let mut worst_grid = 0.0f64;
+    // exact check over all intervals ending at j, looking back at most LOOKBACK events, plus a
+    // running-minimum form with the running maximum RTT for longer intervals
+    const LOOKBACK: usize = 600;
+    let mut cum = vec![0f64; n + 1];
+    for k in 0..n {
+        cum[k + 1] = cum[k] + tr[k].len as f64;
+    }
+    for j in 0..n {
         let mut rmax = 0.0f64;
-        let mut long_excess = 0.0f64;
-        let mut long_w = None;
-        for j in 0..n {
-            let t = tr[j].t_ns as f64 / 1e9;
-            rmax = rmax.max(tr[j].rtt_s);
-            if j == 0 || tr[j - 1].t_ns != tr[j].t_ns {
-                let g_minus = cum[j] - b * t;
-                if g_minus < min_g {
-                    min_g = g_minus;
-                }
+        let lo = j.saturating_sub(LOOKBACK);
+        let mut k = j + 1;
+        while k > lo {
+            k -= 1;
+            rmax = rmax.max(tr[k].rtt_s);
+            // only interval starts that begin a new instant matter (closed interval)
+            if k > 0 && tr[k - 1].t_ns == tr[k].t_ns && k > lo {
+                continue;
             }
-            let g_plus = cum[j + 1] - b * t;
-            let ex = g_plus - min_g - (b * rmax + 1472.0);
-            if ex > long_excess {
-                long_excess = ex;
-                long_w = Some(j);
+            let bytes = cum[j + 1] - cum[k];
+            let dt = (tr[j].t_ns - tr[k].t_ns) as f64 / 1e9;
+            let allowed = b * (dt + rmax) + 1472.0;
+            let excess = bytes - allowed;
+            if excess > worst_strict {
+                worst_strict = excess;
+                let d = tr[k].step_dt_ns as f64 / 1e9;
+                let grid_allowed = b * (dt + rmax + d) + 1472.0;
+                worst = Some((k, j, bytes, allowed, d));
+                worst_grid = worst_grid.max(bytes - grid_allowed);
             }
         }
-        let limited = self.out.c.get("rate_events");
-        let _ = limited;
-        if worst_strict > 0.5 {
-            let (k, j, bytes, allowed, d) = worst.unwrap();
-            let app_flush = tr[k..=j].iter().any(|e| e.after_app_flush);
-            let msg = format!(
-                "side {} sent {} bytes in [{} ms, {} ms] (events {}..{}), allowed {:.0} = B*(dt+R)+1472 with B={} R={:.4}s; excess {:.0} bytes; preceding step interval d={:.4}s (B*d={:.0}); application flush() in interval: {}",
-                i, bytes, tr[k].t_ns / MS, tr[j].t_ns / MS, k, j, allowed, b, tr[k..=j].iter().fold(0.0f64, |m, e| m.max(e.rtt_s)), worst_strict, d, b * d, app_flush
-            );
-            if worst_grid <= 0.5 && app_flush {
-                self.out.violations.push(Violation::new("C13", "burst-after-step-flush", "C13:strict-bound-exceeded-by-at-most-one-step-credit:app-flush-after-step", msg));
-            } else if worst_grid <= 0.5 {
-                self.out.violations.push(Violation::new("C13", "burst-within-grid", "C13:strict-bound-exceeded-by-at-most-one-step-credit:no-app-flush", msg));
-            } else {
-                self.out.violations.push(Violation::new("C13", "rate-exceeded", "C13:rate-exceeded-beyond-step-credit", msg));
+    }
+    // long intervals: g(j) - min g^-(i) <= B*Rmax_so_far + 1472
+    let mut min_g = f64::MAX;
+    let mut rmax = 0.0f64;
+    let mut long_excess = 0.0f64;
+    let mut long_w = None;
+    for j in 0..n {
+        let t = tr[j].t_ns as f64 / 1e9;
+        rmax = rmax.max(tr[j].rtt_s);
+        if j == 0 || tr[j - 1].t_ns != tr[j].t_ns {
+            let g_minus = cum[j] - b * t;
+            if g_minus < min_g {
+                min_g = g_minus;
             }
-        } else if long_excess > 0.5 {
-            let j = long_w.unwrap();
-            self.out.violations.push(Violation::new("C13", "long-run-rate-exceeded", "C13:long-run-rate-exceeded", format!("side {} cumulative bytes up to t={} ms exceed B*(dt+Rmax)+1472 by {:.0} bytes over a long interval (B={}, Rmax={:.4}s)", i, tr[j].t_ns / MS, long_excess, b, rmax)));
         }
+        let g_plus = cum[j + 1] - b * t;
+        let ex = g_plus - min_g - (b * rmax + 1472.0);
+        if ex > long_excess {
+            long_excess = ex;
+            long_w = Some(j);
+        }
+    }
+    let limited = c.get("rate_events");
+    let _ = limited;
+    if worst_strict > 0.5 {
+        let (k, j, bytes, allowed, d) = worst.unwrap();
+        let app_flush = tr[k..=j].iter().any(|e| e.after_app_flush);
+        let msg = format!(
+            "side {} sent {} bytes in [{} ms, {} ms] (events {}..{}), allowed {:.0} = B*(dt+R)+1472 with B={} R={:.4}s; excess {:.0} bytes; preceding step interval d={:.4}s (B*d={:.0}); application flush() in interval: {}",
+            i, bytes, tr[k].t_ns / MS, tr[j].t_ns / MS, k, j, allowed, b, tr[k..=j].iter().fold(0.0f64, |m, e| m.max(e.rtt_s)), worst_strict, d, b * d, app_flush
+        );
+        if worst_grid <= 0.5 && app_flush {
+            violations.push(Violation::new("C13", "burst-after-step-flush", "C13:strict-bound-exceeded-by-at-most-one-step-credit:app-flush-after-step", msg));
+        } else if worst_grid <= 0.5 {
+            violations.push(Violation::new("C13", "burst-within-grid", "C13:strict-bound-exceeded-by-at-most-one-step-credit:no-app-flush", msg));
+        } else if worst_grid <= 1.0 {
+            // credit is granted in whole bytes, the fraction is carried to the next step: the
+            // fraction accrued before the interval's first byte (< 1 byte) is granted inside it
+            violations.push(Violation::new("C13", "burst-within-grid-plus-carry", "C13:strict-bound-exceeded-by-at-most-one-step-credit:plus-sub-byte-credit-carry", msg));
+        } else {
+            violations.push(Violation::new("C13", "rate-exceeded", "C13:rate-exceeded-beyond-step-credit", msg));
+        }
+    } else if long_excess > 0.5 {
+        let j = long_w.unwrap();
+        violations.push(Violation::new("C13", "long-run-rate-exceeded", "C13:long-run-rate-exceeded", format!("side {} cumulative bytes up to t={} ms exceed B*(dt+Rmax)+1472 by {:.0} bytes over a long interval (B={}, Rmax={:.4}s)", i, tr[j].t_ns / MS, long_excess, b, rmax)));
     }
 }
 
